@@ -101,11 +101,15 @@ func AlterDropWithTwoFksToSameKey(w *World, a *Admin) bool {
 
 // RenamesLowerBase reports whether the request is an "alter T rename" that
 // renames a column x away while T has x_lower! (as a derived column or index
-// column). Such a request is only accepted when the same request renames
-// another column to x (finding C21/rename-lower-base: the name x_lower! then
-// denotes the new column x, but the index keeps its field numbers, i.e. stays
-// built on the old column; after reopen the field numbers are recomputed
-// from the names and no longer match the stored index).
+// column) AND gives another column the name x in the same request, e.g.
+// "rename d to f, e to d". Only that form is accepted (finding
+// C21/rename-lower-base: the name x_lower! then denotes the new column x,
+// but the index keeps its field numbers, i.e. stays built on the old column;
+// after reopen the field numbers are recomputed from the names and no longer
+// match the stored index). A rename of x alone is refused by the final
+// validation ("_lower! nonexistent column") and is NOT in this class: such
+// late refusals must be issued, they are what the "refused request changes
+// nothing" oracle is for.
 func RenamesLowerBase(w *World, a *Admin) bool {
 	if a == nil || a.Kind != "alterrename" {
 		return false
@@ -125,10 +129,25 @@ func RenamesLowerBase(w *World, a *Admin) bool {
 		}
 		return false
 	}
-	for _, f := range a.From {
-		if has(f + "_lower!") {
+	// simulate the renames on the column list (in request order)
+	cols := slices.Clone(t.Cols)
+	for i, f := range a.From {
+		j := slices.Index(cols, f)
+		if j < 0 || f == "-" || slices.Contains(cols, a.To[i]) {
+			return false // refused before anything is renamed
+		}
+		cols[j] = a.To[i]
+	}
+	for i, f := range a.From {
+		if !has(f + "_lower!") {
+			continue
+		}
+		// x was renamed away; is there a column named x again, in another position?
+		j := slices.Index(cols, f)
+		if j >= 0 && j != slices.Index(t.Cols, f) {
 			return true
 		}
+		_ = i
 	}
 	return false
 }
